@@ -8,10 +8,8 @@ open List
 
 variable {σ : Type}
 
-theorem diffAsc_nil (b : Cell) : diffAsc [] b = [] := rfl
-
 theorem diffAsc_eq_of_length {a b : Cell} (h : (diffAsc a b).length = a.length) : diffAsc a b = a :=
-  Sublist.eq_of_length filter_sublist h
+  Sublist.eq_of_length (diffAsc_sublist a b) h
 
 /-- One container of a clear-import. -/
 theorem importClear_group {C : Coll σ} (ok : CollOK C) (p : Policy) (s : σ) (h : Heap) (n k : Nat)
@@ -57,7 +55,7 @@ theorem importClear_group {C : Coll σ} (ok : CollOK C) (p : Policy) (s : σ) (h
     · simp [importClearFn, cN]
     · exact ⟨asc_nil, by simp⟩
     · exact Or.inl ⟨[], by simp, rfl, hc0.symm⟩
-    · rw [hc0]; rfl
+    · rw [hc0, diffAsc_nil]
     · rw [hc0]; rfl
   | some i =>
     have hci : cont C ⟨s, h⟩ k = hget h i := cont_of_lk_some hl
@@ -71,9 +69,9 @@ theorem importClear_group {C : Coll σ} (ok : CollOK C) (p : Policy) (s : σ) (h
       · simp [importClearFn, cN, hemp]
       · exact hold
       · exact Or.inl ⟨[], by simp, rfl, rfl⟩
+      · rw [he0, diffAsc_nil]
       · rw [he0]; rfl
-      · rw [he0]; rfl
-    · have hlen := length_diffAsc (hget h i) syn
+    · have hlen := length_diffAsc (b := syn) hold.1 hsyn.1
       by_cases hfull : syn.length = W
       · apply fin h (n + (hget h i).length) none true []
         · simp [importClearFn, cN, hemp, hfull]
@@ -156,7 +154,7 @@ theorem slice_diff {C : Coll σ} {ok : CollOK C} {b b' : BM σ} (hg : Good C ok 
   intro v
   rw [Spec.mem_removeAll, mem_slice hg, mem_gvals hc]
   by_cases e : v / W = g.1
-  · rw [e, hk, mem_diffAsc]; simp
+  · rw [e, hk, mem_diffAsc (cont_cellOK hg g.1).1 hc.1]; simp
   · rw [ho _ e]; simp [e]
 
 /-- Number of values of a payload container not yet present, counted on the value list. -/
